@@ -3,7 +3,7 @@ CONSTANTS
   FixD2 = TRUE
   FixD5 = TRUE
   FixD6 = TRUE
-  MaxLen = 4
+  MaxLen = 5
   Emit = TRUE
 INVARIANTS
   Inv_Reads
